@@ -144,7 +144,7 @@ def c04(tier, seed):
     inv = ["Inv_C04_Judged", "Inv_C04_UnalteredOk", "Inv_NoInternal", "Inv_C06_AppendOnly"]
     if tier == "quick":
         plans = [
-            dict(scope="fmt3", mode="exhaustive", maxops=4, invariants=inv, props=["Act_C04_FirstRefStable"]),
+            dict(scope="fmt3", mode="exhaustive", maxops=4, limit=3500, invariants=inv, props=["Act_C04_FirstRefStable"]),
             dict(scope="fmt3n", mode="simulate", num=300, depth=5, mc=True, mc_maxgens=2, invariants=inv),
         ]
     else:
@@ -222,8 +222,8 @@ INV_C06 = ["Inv_C06_AppendOnly", "Inv_C06_Numbered", "Inv_NoInternal"]
 generic(
     "C06", "model_checking",
     quick=[
-        dict(scope="fmt3", mode="simulate", num=250, depth=5, mc_maxgens=3, invariants=INV_C06, props=["Act_C06_AppendOnly"]),
-        dict(scope="nest", mode="simulate", num=250, depth=7, mc_maxgens=3, invariants=INV_C06, props=["Act_C06_AppendOnly"],
+        dict(scope="fmt3", mode="simulate", num=60, depth=5, limit=500, mc_maxgens=3, invariants=INV_C06, props=["Act_C06_AppendOnly"]),
+        dict(scope="nest", mode="simulate", num=60, depth=7, limit=700, mc_maxgens=2, invariants=INV_C06, props=["Act_C06_AppendOnly"],
              variants=[{"names": "plain"}, {"names": "mixed", "autotick": False}]),
     ],
     thorough=[
@@ -251,7 +251,7 @@ generic(
     "C02", "model_checking",
     quick=[
         dict(scope="tree", mode="simulate", num=60, depth=8, limit=500, mc_maxgens=1, invariants=INV_C02),
-        dict(scope="nest", mode="simulate", num=60, depth=8, limit=400, mc_maxgens=2, invariants=INV_C02),
+        dict(scope="nest", mode="simulate", num=60, depth=8, limit=400, mc_maxgens=1, invariants=INV_C02),
         dict(scope="ign", mode="simulate", num=40, depth=7, limit=300, mc=False),
     ],
     thorough=[
@@ -270,7 +270,7 @@ generic(
     "C03", "model_checking",
     quick=[
         dict(scope="tree", mode="simulate", num=60, depth=8, limit=600, mc_maxgens=1, invariants=INV_C03, variants=[{"names": "plain"}, {"names": "mixed", "touch": True}]),
-        dict(scope="nest", mode="simulate", num=60, depth=8, limit=400, mc_maxgens=2, invariants=INV_C03),
+        dict(scope="nest", mode="simulate", num=60, depth=8, limit=400, mc_maxgens=1, invariants=INV_C03),
         dict(scope="ign", mode="simulate", num=40, depth=7, limit=300, mc=False),
     ],
     thorough=[
@@ -336,7 +336,7 @@ generic(
 INV_C18 = ["Inv_C18_Summary", "Inv_C18_VerifyPL", "Inv_C14_Frame"]
 generic(
     "C18", "model_checking",
-    quick=[dict(scope="flat", mode="simulate", num=120, depth=11, limit=900, mc_maxgens=2, invariants=INV_C18)],
+    quick=[dict(scope="flat", mode="simulate", num=120, depth=11, limit=900, mc_maxgens=1, invariants=INV_C18)],
     thorough=[dict(scope="flat", mode="simulate", num=1500, depth=13, mc_maxgens=3, invariants=INV_C18)],
     pclauses=["P_C18_Summary", "P_C18_VerifyPL", "P_C18_Valid", "P_C14_Frame"],
     antecedent=lambda ln, v: ln["op"]["op"] in ("flatten", "verifypl") and ln["exit"] != 30 and has_history(ln),
@@ -383,7 +383,7 @@ generic(
 INV_C17 = ["Inv_C17_Renamed", "Inv_C17_Altered", "Inv_C03_NoFalseAlarm", "Inv_C03_Removed", "Inv_C03_Added", "Inv_NoInternal"]
 generic(
     "C17", "model_checking",
-    quick=[dict(scope="chain", mode="simulate", num=80, depth=11, limit=700, mc_maxgens=3, invariants=INV_C17),
+    quick=[dict(scope="chain", mode="simulate", num=80, depth=11, limit=700, mc_maxgens=2, invariants=INV_C17),
            dict(scope="ren", mode="simulate", num=60, depth=10, limit=500, mc_maxgens=1, invariants=INV_C17)],
     thorough=[dict(scope="chain", mode="simulate", num=1500, depth=13, mc_maxgens=3, invariants=INV_C17),
               dict(scope="ren", mode="simulate", num=1500, depth=12, mc_maxgens=2, invariants=INV_C17)],
